@@ -3,7 +3,7 @@ from checklib import cN, cbytes, cbool, clist, cpair, copt
 
 ID = "C10"
 HARNESS = "c10"
-N_CASES = {"quick": 1800, "thorough": 40000}
+N_CASES = {"quick": 1500, "thorough": 40000}
 N_SEARCH = {"quick": 1, "thorough": 2}
 SHARD = 150
 RULE = ("generated data files (one zone with one located A record per location and name; 16 names with an exact '8' map each "
@@ -67,6 +67,16 @@ def cor(o):
     return "(Some (%d,%s))" % (o["len"], cid(o["loc"]))
 
 
+def crd(d):
+    """What the driver returned, read off the Reader-level result: None = lookup error
+    (or not observed), Some None = no location, Some (Some (location, mask))."""
+    if not d or d.get("st") == "err":
+        return "None"
+    if d.get("st") != "loc" or not d.get("loc"):
+        return "(Some None)"
+    return "(Some (Some (%s,%d)))" % (cid(d["loc"]), d["mask"])
+
+
 def cwopt(o):
     if o["is_ecs"]:
         return "WEcs %d %d %d %s" % (o["fam"], o["src"], o["scope"], cbytes(o["addr"]))
@@ -101,6 +111,7 @@ def to_coq(c):
         clist([cN(x) for x in o.get("wcodes") or []]),
         cecs(o.get("wecs")),
         cor(c["or_ecs"]), cor(c["or_res"]),
+        crd(c.get("rd_ecs")), crd(c.get("rd_res")),
     ]
     return "mk " + " ".join(f if f[0] in "([" or f.replace("%", "").isalnum() else "(" + f + ")" for f in fields)
 
@@ -119,18 +130,46 @@ def case_class(c):
     return "%s:%s%s" % (c.get("class", "?"), c.get("mode", "?"), "+hit" if c.get("hit") else "")
 
 
-def known_finding(c, findings):
-    """F21: BADVERS reply (EDNS version != 0) to a query that carried an ECS option:
+V4BLOCK = 0xffff << 32
+
+
+def f20_shape(c):
+    """RocksDB backend and the name's ECS or resolver map declares an IPv6 subnet of
+    length 1..95 that contains ::ffff:0:0 (Rearranger pseudo points, finding F20)."""
+    if c.get("backend") not in ("v1", "v2"):
+        return False
+    nets = c.get("nets") or {}
+    for mid in (c.get("map8"), c.get("mapm")):
+        if not mid:
+            continue
+        for n in nets.get(str(mid), []):
+            l = n["l"]
+            if 1 <= l <= 95 and (addr(n["a"]) >> (128 - l)) == (V4BLOCK >> (128 - l)):
+                return True
+    return False
+
+
+def f21_shape(c):
+    """BADVERS reply (EDNS version != 0) to a query that carried an ECS option:
     OPT present, client-subnet option missing.  Exactly that shape."""
     q = c.get("q") or {}
     o = c.get("obs") or {}
     if not (c.get("parsed") and q.get("opt") and q.get("ver", 0) != 0 and c.get("seen") is not None):
-        return None
-    if not (o.get("reply") and o.get("rcode") == 16 and o.get("opt") and o.get("ecs") is None
-            and o.get("wire_ok") and o.get("wopt") and o.get("wecs") is None and 8 not in (o.get("codes") or [])):
+        return False
+    return bool(o.get("reply") and o.get("rcode") == 16 and o.get("opt") and o.get("ecs") is None
+                and o.get("wire_ok") and o.get("wopt") and o.get("wecs") is None and 8 not in (o.get("codes") or []))
+
+
+def known_finding(c, findings):
+    want = None
+    if f21_shape(c):
+        want = "F21"
+    elif f20_shape(c) and (c.get("q") or {}).get("ver", 0) == 0:
+        want = "F20"
+    if want is None:
         return None
     for f in findings:
-        if f.get("id") == "F21":
+        if f.get("id") == want:
             return f
     return None
 
